@@ -1390,6 +1390,9 @@ impl Writer {
         .filter(|rp| rp.qos().is_reliable())
         .map(RtpsReaderProxy::acked_up_to_before)
         .min()
+        // A reader cannot acknowledge more than has been written, whatever its ACKNACK
+        // claims. (A larger value would point past the history and disable cleaning.)
+        .map(|acked| min(acked, self.history_buffer.last_change_sequence_number().plus_1()))
         .unwrap_or_else(|| self.history_buffer.last_change_sequence_number().plus_1());
       // If all readers have acked all up to before 5, and depth is 5, we need
       // to keep samples 0..4, i.e. from acked_up_to_before - depth .
